@@ -177,6 +177,73 @@ def replay(case):
     return check_history(case)
 
 
+# ---- explicit-state exploration with merging (thorough): deeper histories -------------------------
+def _expand_merged(item):
+    """replay history on a fresh object; return (state key, enabled ops, failures)"""
+    ii, hist = item
+    r = WO.Runner(WO.INITS[ii])
+    for op in hist:
+        if r.concretize(op) is None:
+            return None, [], []
+        r.apply(op)
+    obs = WO.observables(r.wv)
+    from mc import engine as _e
+    key = _e.sig_hash((ii if not hist else -1, WO.values_only(obs)))
+    fails = WO.tag(r.reference_tracks() + check_reshape(r, "trend") + check_reshape(r, "recreate"), hist[-1] if hist else None, hist)
+    return key, r.enabled(WO.DOMAIN_OPS), fails
+
+
+def bfs_merged(max_depth, cap):
+    """level-synchronous BFS over canonical observable states (bytes of working / reference /
+    original values): two histories that lead to identical observables have identical futures,
+    because every operation reads nothing else (x_scale / y_scale are write-only)."""
+    from mc import engine as _e
+    st = _e.Stats()
+    seen = set()
+    frontier = []
+    for ii in range(5):
+        key, en, fails = _expand_merged((ii, []))
+        seen.add(key)
+        frontier.append((ii, [], en))
+    st.states = len(seen)
+    depth = 0
+    full_depth = 0
+    while frontier and depth < max_depth:
+        tasks = [(ii, h + [op]) for (ii, h, en) in frontier for op in en]
+        res = _e.pmap("c08-bfs", _expand_merged, tasks, chunksize=max(1, len(tasks) // 512))
+        nxt = []
+        for (ii, h), (key, en, fails) in zip(tasks, res):
+            st.transitions += 1
+            st.executions += 1
+            st.calls += len(h)
+            for f in fails:
+                case = {"kind": "history-c08", "init": ii, "ops": [list(o) for o in h], "tier": "quick", "node": 0}
+                st.add_failure({"clause": f["clause"], "case": _e.jsonable(case), "detail": _e.jsonable(f.get("detail")),
+                                "key": _e.jsonable(f.get("key")), "choices": None, "labels": None})
+            if key is None or key in seen:
+                continue
+            seen.add(key)
+            st.outcomes.add(key)
+            st.nontrivial.add(key)
+            nxt.append((ii, h, en))
+        depth += 1
+        st.states = len(seen)
+        if len(seen) > cap:
+            st.caps.append("merged BFS: state cap %d exceeded while expanding depth %d; depths <= %d are complete" % (cap, depth, depth))
+            full_depth = depth
+            frontier = []
+            break
+        full_depth = depth
+        frontier = nxt
+    st.max_depth = full_depth
+    st.cases = st.executions
+    st.counters["merged_bfs_states"] = len(seen)
+    st.counters["merged_bfs_depth_complete"] = full_depth
+    if frontier is not None and len(st.samples) < 2 and tasks:
+        st.samples.append({"init": WO.INITS[tasks[-1][0]]["name"], "history": [list(o) for o in tasks[-1][1]]})
+    return st
+
+
 def harnesses(tier, seed):
     quick = tier == "quick"
     depth = 3 if quick else 4
@@ -218,4 +285,8 @@ def harnesses(tier, seed):
             ops_done.append(op)
             node(op)
 
-    return [{"name": "domain-histories", "body": body, "bound_text": "all histories to depth %d" % depth}]
+    hs = [{"name": "domain-histories", "body": body, "bound_text": "all histories to depth %d" % depth}]
+    if not quick:
+        hs.append({"name": "merged-state-bfs", "run": (lambda: bfs_merged(8, 400000)),
+                   "bound_text": "explicit-state BFS with merging, depth <= 8 or 400k states"})
+    return hs
